@@ -2759,7 +2759,10 @@ fn generate_constraints_expr(
             }
         }
         ExprKind::TaskBlock(block) => {
+            // a task runs on its own: it cannot break out of a loop around the `task` expression
+            ctx.loop_stack.push(None);
             generate_constraints_expr(ctx, polyvar_scope, Mode::Syn, block);
+            ctx.loop_stack.pop();
             constrain(
                 ctx,
                 &node_ty,
@@ -3679,6 +3682,8 @@ fn generate_constraints_func_def_helper(
 
     // body
     ctx.func_ret_stack.push(Prov::FuncOut(node.clone()));
+    // a loop around the function definition does not enclose the function's body
+    ctx.loop_stack.push(None);
     let ty_body = TypeVar::fresh(ctx, Prov::FuncOut(node.clone()));
     if let Some(out_annot) = out_annot {
         let out_annot = out_annot.to_typevar(ctx);
@@ -3689,6 +3694,7 @@ fn generate_constraints_func_def_helper(
     } else {
         generate_constraints_expr(ctx, &polyvar_scope, Mode::ana(&ty_body), body);
     }
+    ctx.loop_stack.pop();
     ctx.func_ret_stack.pop();
 
     TypeVar::make_func(ty_args, ty_body, Reason::Node(node.clone()))
